@@ -5,7 +5,7 @@ from common import Check, assert_repo_import, eval_cases, eval_one, canon_tree, 
 import lang_common as LC
 import progen
 
-IMPORTS = "Base Token TokEngine Lex Headers Blocks Pairing Fold ScanFile Spec HeaderSpec SpecCheck LexShapes SpecCheckAll PySpec PySpecCheck PyLexical"
+IMPORTS = "Base Token TokEngine Lex Headers Blocks Pairing Fold ScanFile Spec HeaderSpec SpecCheck LexShapes SpecCheckAll PySpec PySpecCheck PyLexical Grammar GrammarAll GrammarParse"
 LEXICAL = ("C", "Cpp", "CSharp", "Java", "JavaScript", "TypeScript")   # brace languages: Scope/HeaderSpec.v, LexShapes.v
 
 
@@ -94,6 +94,15 @@ def spec_expr(li, toklit, ds):
             "enc_scan (expected_all code ds ds)])")
 
 
+def grammar_exprs(li, toklit):
+    """(membership, derivation): whether Coq's recogniser of the formal grammar (Scope/GrammarParse.v, proved sound)
+    accepts the program, and the measurements the unconditional theorem C01_grammar_brace then prescribes"""
+    code = f"filter_tokens false {toklit}"
+    return (f"(enc_bool (match parse_program (lang_code {li}) ({code}) with Some _ => true | None => false end))",
+            f"(let code := {code} in match parse_program (lang_code {li}) code with "
+            "Some ds => enc_scan (expected_all code ds ds) | None => T [] end)")
+
+
 def _work(args):
     lang, seeds, opts = args
     out = []
@@ -139,7 +148,7 @@ def _work(args):
 def run(tier, seed, replay=None):
     assert_repo_import()
     chk = Check("C01", tier, seed)
-    model_ok = chk.proof_stage(["Scope/ScanFile.vo", "Scope/SpecProofs.vo", "Scope/SpecCheck.vo", "Scope/HeaderProofs.vo", "Scope/ShapeProofs.vo", "Scope/SpecCheckAll.vo", "Scope/PyLexical.vo", "Scope/TieProofs.vo", "Scope/GrammarProofs.vo", "Scope/GrammarAllProofs.vo", "Scope/PyGrammarProofs.vo"])
+    model_ok = chk.proof_stage(["Scope/ScanFile.vo", "Scope/SpecProofs.vo", "Scope/SpecCheck.vo", "Scope/HeaderProofs.vo", "Scope/ShapeProofs.vo", "Scope/SpecCheckAll.vo", "Scope/PyLexical.vo", "Scope/TieProofs.vo", "Scope/GrammarProofs.vo", "Scope/GrammarAllProofs.vo", "Scope/PyGrammarProofs.vo", "Scope/GrammarParseProofs.vo"])
     n_prog = 400 if tier == "quick" else 12000
     base = seed * 1000003
     jobs = []
@@ -153,6 +162,7 @@ def run(tier, seed, replay=None):
             jobs.append((lang, small[k:k + 50], {"long_bodies": False}))
     model_cases = []
     spec_cases = []
+    gram_cases = []
     budget = {lang: (40 if tier == "quick" else 300) for lang in LC.LANGS}
     with mp.Pool(NPROC) as pool:
         for lang, res in pool.imap_unordered(_work, jobs):
@@ -176,6 +186,8 @@ def run(tier, seed, replay=None):
                         # the theorem's right-hand side against the generator's expectation
                         spec_cases.append(((py_spec_expr(toklit, ds) if lang == "Python" else spec_expr(li, toklit, ds)),
                                            [1, 1, [0, exp]], case))
+                    if lang in LEXICAL:
+                        gram_cases.append((grammar_exprs(li, toklit), [0, exp], case))
     chk.samples = [c for _, _, c in model_cases[:3]]
     if model_ok:
         mism, err = eval_cases("C01", IMPORTS, [(m, o) for m, o, _ in model_cases], shard=20)
@@ -195,6 +207,24 @@ def run(tier, seed, replay=None):
             chk.broken.append(f"specification: on {spec_cases[i][2]} the hypotheses of the C01 theorem do not hold or its "
                               f"right-hand side differs from the generator's expectation: [wf_descs, lexically_canonical, "
                               f"expected_all] = {str(got)[:300]} vs {str(canon_tree(spec_cases[i][1]))[:300]}")
+        # membership in the formal grammar, decided by the recogniser proved sound in Coq: for a member the theorem
+        # C01_grammar_brace applies with no hypothesis left, and what it prescribes must be the expectation
+        outside, err = eval_cases("C01g", IMPORTS, [(g[0], 1) for g, _, _ in gram_cases], shard=8)
+        if err:
+            chk.broken.append("grammar recogniser evaluation failed: " + err[-400:])
+        members = [i for i in range(len(gram_cases)) if i not in set(outside)]
+        chk.count("brace-language programs recognised in Coq as programs of the formal grammar (C01_grammar_brace applies unconditionally)", len(members))
+        chk.count("brace-language programs outside the formal grammar (lexical-hypothesis theorems apply)", len(outside))
+        mism, err = eval_cases("C01h", IMPORTS, [(gram_cases[i][0][1], gram_cases[i][1]) for i in members], shard=8)
+        if err:
+            chk.broken.append("grammar derivation evaluation failed: " + err[-400:])
+        for i in mism[:5]:
+            g = gram_cases[members[i]]
+            got = eval_one("C01h", IMPORTS, g[0][1])
+            chk.broken.append(f"grammar: on {g[2]} the measurements the grammar theorem prescribes differ from the generator's "
+                              f"expectation: {str(got)[:300]} vs {str(canon_tree(g[1]))[:300]}")
+        if gram_cases and not members:
+            chk.broken.append("grammar: no generated program is recognised as a program of the formal grammar")
     else:
         chk.broken.append("scope model does not build; correspondence not run")
     nt = len(chk.nontrivial)
